@@ -5,6 +5,7 @@ proof   : Props/C36.v — generic lockset theorem (any number of threads, any sc
           on every run) for the guarded field list; caller-holds-lock contracts (subMux, channel instance lock) checked
           at every call site; Node.val/Node.attr are guarded since the fix of race/Node.val (regression witness kept).
 tie     : the concurrent scenarios (requests + channel renewal with a short lifetime + subscription with item churn;
+          subscriptions timing out on their own goroutines around a CreateMonitoredItems request; token expiry;
           the C34 and C28 scenarios) run from a binary built with -race; every `WARNING: DATA RACE` report is parsed:
           a report whose access lies on a line the table attributes to a guarded field is a correspondence break;
           any other report is a failure of the property itself, keyed by the function at the root of the race.
@@ -115,10 +116,10 @@ def run(ctx):
         return
     env = dict(vf.GOENV, GORACE="halt_on_error=0")
     if ctx.thorough():
-        plan = [["c36expiry"]] + [["-seed", str(ctx.seed + i), "-n", "8", "c36renew"] for i in range(4)] + \
+        plan = [["c36expiry"], ["-seed", str(ctx.seed), "-n", "5", "c36subs"]] + [["-seed", str(ctx.seed + i), "-n", "8", "c36renew"] for i in range(4)] + \
                [["-seed", str(ctx.seed), "-n", "9", "-ops", "60", "c34"], ["-seed", str(ctx.seed), "-n", "4", "-ops", "120", "c28"]]
     else:
-        plan = [["c36expiry"], ["-seed", str(ctx.seed), "-n", "5", "c36renew"], ["-seed", str(ctx.seed), "-n", "3", "-ops", "30", "c34"],
+        plan = [["c36expiry"], ["-seed", str(ctx.seed), "-n", "2", "c36subs"], ["-seed", str(ctx.seed), "-n", "5", "c36renew"], ["-seed", str(ctx.seed), "-n", "3", "-ops", "30", "c34"],
                 ["-seed", str(ctx.seed), "-n", "2", "-ops", "60", "c28"]]
     reports, ran, crashed = [], [], []
     for args in plan:
